@@ -1,5 +1,6 @@
 import DmrVerif.Driver.Loop
+import DmrVerif.Driver.Tracker
 
-/-! model driver for property C08 (stub: no operations registered yet) -/
+/-! model driver for property C08: the transmission tracker, one terminal threaded through the lines -/
 
-def main : IO Unit := Dmr.Driver.runMain []
+def main : IO Unit := Dmr.Driver.runMainS Dmr.Driver.trackerStep none
